@@ -248,9 +248,19 @@ func CompareTsToPublished(tc *TsContent, units []media.Unit, hevc bool, aacSr in
 	if len(tc.Video) > 0 {
 		start := -1
 		for i, u := range pv {
-			if nalsEqual(expectedVideoNals(u, hevc), tc.Video[0].Nals) {
+			if !nalsEqual(expectedVideoNals(u, hevc), tc.Video[0].Nals) {
+				continue
+			}
+			ok := true
+			for j := 1; j < 4 && j < len(tc.Video) && i+j < len(pv); j++ {
+				ok = ok && nalsEqual(expectedVideoNals(pv[i+j], hevc), tc.Video[j].Nals)
+			}
+			if ok {
 				start = i
 				break
+			}
+			if start < 0 {
+				start = i
 			}
 		}
 		if start < 0 {
@@ -297,11 +307,22 @@ func CompareTsToPublished(tc *TsContent, units []media.Unit, hevc bool, aacSr in
 	}
 	// ---- audio
 	if len(tc.Audio) > 0 {
+		// small frames need not be unique: a start is a position from which the next frames match as well
 		start := -1
 		for i, u := range pa {
-			if bytes.Equal(u.Audio, tc.Audio[0].Data) {
+			if !bytes.Equal(u.Audio, tc.Audio[0].Data) {
+				continue
+			}
+			ok := true
+			for j := 1; j < 4 && j < len(tc.Audio) && i+j < len(pa); j++ {
+				ok = ok && bytes.Equal(pa[i+j].Audio, tc.Audio[j].Data)
+			}
+			if ok {
 				start = i
 				break
+			}
+			if start < 0 {
+				start = i // no better candidate so far: report against the first content match
 			}
 		}
 		if start < 0 {
